@@ -1,4 +1,5 @@
 import PkgProofs.Lemmas.ScanTrim
+import PkgProofs.Lemmas.SpellNormal
 import PkgProofs.Props.C01
 /-!
 # C02 — Version components and normal forms are faithful and canonical
@@ -215,7 +216,33 @@ theorem major_minor_micro (a b c : Nat) (rest : List Nat) (v : Ver) :
     (v.release = a :: b :: c :: rest → v.major = a ∧ v.minor = b ∧ v.micro = c) := by
   refine ⟨?_, ?_, ?_⟩ <;> intro h <;> simp [Ver.major, Ver.minor, Ver.micro, h]
 
-/-! ### 5. Non-vacuity -/
+/-! ### 5. Components are the PEP 440 reading under every alternate spelling
+
+`Spelling` (`PkgModel/Spec/Spelling.lean`) is the parse tree of the Appendix B grammar with every free
+choice recorded; `render` writes it out, `meaning` is the PEP 440 reading, `normalise` the normal form. -/
+
+/-- **every valid spelling is accepted and read as its PEP 440 meaning** — white space, `v`, leading zeros,
+alternate words in any letter case, every optional separator, implicit numbers, implicit post-release,
+local-label separators and case -/
+theorem scan_render (sp : Spelling.Spelling) (h : Spelling.Valid sp = true) :
+    scan (Spelling.render sp) = some (Spelling.meaning sp) := Spelling.scan_render sp h
+
+/-- **`str` is the PEP 440 normal form**: `str(Version(s))` is the rendering of the normalised spelling, which
+is itself a valid spelling with the same meaning -/
+theorem str_is_normal_form (sp : Spelling.Spelling) (h : Spelling.Valid sp = true) :
+    (Spelling.meaning sp).str = Spelling.render (Spelling.normalise sp) ∧
+    Spelling.Valid (Spelling.normalise sp) = true ∧
+    Spelling.meaning (Spelling.normalise sp) = Spelling.meaning sp :=
+  ⟨Spelling.str_is_normal_form sp, Spelling.normalise_valid sp h, Spelling.meaning_normalise sp h⟩
+
+/-- two spellings with the same meaning are equal versions with the same `str` and the same canonical string;
+two spellings of equal versions have the same canonical string -/
+theorem spelling_independent (sp sq : Spelling.Spelling) (hp : Spelling.Valid sp = true) (hq : Spelling.Valid sq = true)
+    (he : (Spelling.meaning sp).eq (Spelling.meaning sq) = true) :
+    canonicalizeVersion (Spelling.render sp) true = canonicalizeVersion (Spelling.render sq) true :=
+  (canon_complete_invariant_str _ _ _ _ (scan_render sp hp) (scan_render sq hq)).mpr he
+
+/-! ### 6. Non-vacuity -/
 
 def ex1 : Ver := { epoch := 1, release := [1, 0, 0], pre := some (.rc, 2), post := some 3, dev := some 4,
                    loc := some [.str (ofString "abc"), .num 1] }
@@ -231,5 +258,17 @@ example : scan ({ ex1 with loc := some [.str (ofString "A")] }).str ≠ some { e
 example : scan ({ ex1 with loc := some [.str (ofString "7")] }).str ≠ some { ex1 with loc := some [.str (ofString "7")] } := by decide
 -- the engine's greedy reading of `letter -N`
 example : (scan (ofString "1.0a-1")).map (fun v => (v.pre, v.post)) = some (some (.a, 1), none) := by decide
+
+def sp1 : Spelling.Spelling :=
+  { ws1 := [32], v := some 86, epoch := some (ofString "01"), rel0 := (ofString "1"), rels := [ofString "00"],
+    pre := some ⟨.dash, .c, ofString "C", .none, none⟩,
+    post := some (.spelled ⟨.dot, .rev, ofString "rEv", .none, none⟩),
+    dev := some ⟨.under, (), ofString "DEV", .dash, some (ofString "03")⟩,
+    loc := some ⟨ofString "AbC", [(.dash, ofString "01")]⟩, ws2 := [10] }
+example : Spelling.Valid sp1 = true := by decide
+example : Spelling.render sp1 = ofString " V01!1.00-C.rEv_DEV-03+AbC-01\n" := by decide
+example : Spelling.render (Spelling.normalise sp1) = ofString "1!1.0rc0.post0.dev3+abc.1" := by decide
+-- the excluded tree `1.0a` + `-1`: the engine reads the same string as pre-release number 1
+example : Spelling.Valid { sp1 with pre := some ⟨.none, .a, [97], .none, none⟩, post := some (.implicit [49]) } = false := by decide
 
 end C02
